@@ -270,6 +270,22 @@ fn hostile_messages() -> Vec<String> {
 	v.push(big);
 	v.push(format!(r#"{{"jsonrpc":"2.0","id":0,"result":{}{}}}"#, "[".repeat(200), "]".repeat(200)));
 	v.push(format!("{}{}", "[".repeat(200), "]".repeat(200)));
+	// long messages full of multi-byte characters: valid JSON that is not JSON-RPC, not JSON at all, and a response with a
+	// huge error message; four ASCII prefixes × three character widths put a character boundary at every residue, so a
+	// byte-indexed cut anywhere below ~5 kB lands inside a character for some member of the family
+	for (ch, n) in [("é", 3000usize), ("€", 2000), ("\u{1F600}", 1500)] {
+		for pre in 0..4usize {
+			let body = format!("{}{}", "a".repeat(pre), ch.repeat(n));
+			v.push(format!(r#"{{"x":"{body}"}}"#));
+			v.push(format!("{body} not json"));
+			v.push(format!(r#"{{"jsonrpc":"2.0","id":77,"error":{{"code":1,"message":"{body}"}}}}"#));
+			v.push(format!(r#"{{"jsonrpc":"2.0","method":"{body}","params":[1]}}"#));
+		}
+	}
+	// nothing but whitespace / nothing at all
+	for t in ["\n", "\r\n", "\t \n", "\u{a0}", "\u{feff}"] {
+		v.push(t.to_string());
+	}
 	v
 }
 
@@ -358,7 +374,7 @@ fn shape_of(t: &str) -> String {
 pub fn check(rep: &Reporter) {
 	let thorough = rep.tier.thorough();
 	rep.set_rule(
-		"SCHED: client histories (1–3 front-end operations out of call / batch / subscribe / subscribe-then-drop / subscribe_to_method / notification / late call) × one transport fault of each kind {n-th send fails, receive error after k messages, peer close, non-JSON message, response with unknown id, (thorough) empty array, array with non-numeric id, empty object} injected at every step, explored over all release orders of {front-end callers, tx.send, tx.close, message deliveries, the client's send task / read task / shutdown watcher (cfg points)} up to the stated deviation bound; plus ENUM: ~100 hostile server messages (ids at u64 boundaries, 10⁴-element array, nesting depth 200, token soup) each with 0 and 1 pending call, followed by a sentinel call. States = decision-tree nodes, transitions = point releases; every execution is an implementation execution.",
+		"SCHED: client histories (1–3 front-end operations out of call / batch / subscribe / subscribe-then-drop / subscribe_to_method / notification / late call) × one transport fault of each kind {n-th send fails, receive error after k messages, peer close, non-JSON message, response with unknown id, (thorough) empty array, array with non-numeric id, empty object} injected at every step, explored over all release orders of {front-end callers, tx.send, tx.close, message deliveries, the client's send task / read task / shutdown watcher (cfg points)} up to the stated deviation bound; plus ENUM: ~150 hostile server messages (ids at u64 boundaries, 10⁴-element array, nesting depth 200, token soup, whitespace-only frames, 2–6 kB messages of 2-, 3- and 4-byte characters at every alignment) each with 0 and 1 pending call, followed by a sentinel call. States = decision-tree nodes, transitions = point releases; every execution is an implementation execution.",
 	);
 	rep.assume("request_timeout is 1 h and time is virtual, so 'prompt' = before quiescence; the harness transport reports peer close as a receive error like the WebSocket transport does");
 	let bound = if thorough { 3 } else { 2 };
